@@ -1,22 +1,157 @@
-"""Per-property MANIFEST texts."""
+"""Per-property MANIFEST texts (single source of truth for MANIFEST.json)."""
 NOTES = ("Technique family: static analysis only (Python ast; nothing under /repo is imported or run by a check). "
-         "Every claimed property is claimed at level 'other': structural necessary conditions decided for all inputs; "
-         "what is not decided is in level_note and DESIGN.md section 3. Exit codes: 0 held, 1 violation, 2 analysis error.")
+         "Every claimed property is claimed at level 'other': structural necessary conditions decided for all inputs because "
+         "they do not depend on run-time values; what is not decided is in level_note and DESIGN.md section 3. "
+         "Exit codes: 0 held, 1 violation (VIOLATION line), 2 analysis error (ANALYSIS-ERROR line: parse failure, vanished "
+         "anchor, instance count below the hand-confirmed floor, failed self-test, internal exception). "
+         "thorough = quick + self-test of the rules on AST-computed broken and benign variants of /repo's current source.")
 
 NOT_APPLICABLE = {
-    "C07": "agreement of the solution curves of structurally different ODE systems is a change-of-variables theorem / numerical comparison; no clause is visible in code shape (the only structural necessary condition, state-vector layout agreement, is claimed under C06)",
-    "C08": "agreement with the 3^N master equation on trees, with t->infinity limits and tau=0/gamma=0 limits are numeric identities against independently computed answers; no sound static argument in reach (DESIGN.md section 4)",
+    "C07": "agreement of the solution curves of structurally different ODE systems (EBCM vs pairwise vs effective degree; "
+           "regular-graph reductions) is a change-of-variables theorem / numerical comparison; no clause is visible in code "
+           "shape. The only structural necessary condition, state-vector layout agreement of each model, is claimed under C06.",
+    "C08": "agreement with the 3^N master equation on trees, of attack-rate fixed points with t->infinity limits, and of the "
+           "tau=0 / gamma=0 limits are numeric identities against independently computed answers; no sound static argument "
+           "in reach (DESIGN.md section 4).",
 }
 
+TB = " Trusted base: CPython ast grammar; rule tables in sa/tables.py and the rule modules; user callbacks do not mutate library state."
+
+
 def _m(text, note, technique):
-    return {"text": text, "note": note, "technique": technique}
+    return {"text": text, "note": note + TB, "technique": technique}
+
 
 META = {
- "C01": _m("", "", ""), "C02": _m("", "", ""), "C03": _m("", "", ""), "C04": _m("", "", ""),
- "C05": _m("Static necessary conditions, for every input: wrappers bind every initial-condition argument to the same-named parameter of the simulator they call (no crossing, no dropped pass-through), every simulator reads its semantic parameters.",
-           "Decides argument plumbing and guard shape, not the per-node histories of a run. Trusted: ast grammar; rule tables in sa/tables.py.",
-           "ast call-graph + static argument binding (R1), parameter-use (R16), initial-condition discipline (R10)"),
- "C06": _m("", "", ""), "C07": _m("", "", ""), "C08": _m("", "", ""), "C09": _m("", "", ""), "C10": _m("", "", ""),
- "C11": _m("", "", ""), "C12": _m("", "", ""), "C13": _m("", "", ""), "C14": _m("", "", ""), "C15": _m("", "", ""),
- "C16": _m("", "", ""), "C17": _m("", "", ""), "C18": _m("", "", ""), "C19": _m("", "", ""), "C20": _m("", "", ""),
+ "C01": _m(
+  "Decides, for every input, the bookkeeping on which exact sampling rests: Gillespie_SIR's clock rate and event-type "
+  "probability are gamma*W(infecteds)+tau*W(IS_links) with each arm sampling the matching set (symbolic expansion, before "
+  "the loop and after every event); the I-S link set is maintained exactly (exhaustive abstract case analysis: event x "
+  "neighbour status x orientation, plus the initial fill); weight plumbing (_get_rate_functions_, edgeweight/nodeweight, "
+  "weighted flag <=> label); _ListDict_ invariants; fast_SIR's forwarding, queue discipline, handler scheduling guards, the "
+  "binomial/truncated-exponential helper's shape, and lock-step +-1 rows.",
+  "Not decided: that binomial + truncated exponential equals independent exponential clocks, any distributional equality, numeric rates.",
+  "ast: symbolic rate expansion, exhaustive abstract case analysis of incremental set maintenance (R11), call-binding (R1), control-context facts (H-guard), class-invariant rules (R12)"),
+ "C02": _m(
+  "Same rate/selection consistency and exhaustive I-S link analysis for Gillespie_SIS including re-insertion of (nbr, n) links "
+  "on recovery; for fast_SIS: recovery time assigned on every path before scheduling, transmission only before the source's "
+  "recovery, re-scheduling of the (source, target) pair on every path (also when the target was already infected), a FRESH "
+  "exponential after the target's recovery (memorylessness), role binding of queued events, queue discipline, +-1 rows.",
+  "Not decided: the memorylessness argument itself and all distributional content.",
+  "ast: symbolic rate expansion, R11 case analysis, handler guard/role rules over control-context facts, R1, R13, R9"),
+ "C03": _m(
+  "For Gillespie_simple_contagion: total rate and selection loop use the same term rate*total_weight over the same sorted "
+  "list and the total is recomputed after every event; every remove/update of potential_transitions in the update section is "
+  "guarded by transition[0] == (statuses of exactly the key it touches, old status for remove, new for update) with weight "
+  "get_weight[transition][key]; coverage of key shapes is complete for the spontaneous, undirected and directed sections; "
+  "initial fill, rate tables, weight tables and event application read the matching spec graph/components.",
+  "Not decided: that the resulting process has the stated law; behaviour of user rate functions.",
+  "ast: exhaustive key-shape x operation analysis of the enabled-event sets (R11s), selection/clock agreement, R12, R9"),
+ "C04": _m(
+  "For all twelve simulators: on every path through an event block the series are appended in lock-step, counts change by "
+  "+-1 matching the status written (or one -1/+1 pair on reported statuses for the generic simulators), initial rows sum to "
+  "G.order() (linear normal form), first time is tmin, synthetic initial rows are sliced off by the number enqueued, every "
+  "reported time is dominated by t<tmax / passes myQueue.add's `time < tmax`, every expovariate rate is guarded against 0, "
+  "and no flag combination of a simulator entry point uses None or an unbound name.",
+  "Not decided: monotonicity of time (non-negativity of run-time delays), termination with I=0.",
+  "ast: path enumeration through event blocks (R9), control-context domination (R13, R17), flag-enumerating abstract interpreter (R2/R3)"),
+ "C05": _m(
+  "For all simulators: rho together with initial_infecteds raises EoNError under `is not None` tests placed before any use; "
+  "default/rho seeding is int(round(N*rho)) nodes by random.sample(list(G), n); a single node is wrapped; first S and R depend "
+  "on initial_recovereds; initially recovered nodes are marked unconditionally before the status map is first read; initial "
+  "history entries are at tmin; wrappers forward every initial-condition parameter to the same-named parameter (no crossing, "
+  "no drop, on every branch).",
+  "Not decided: run-time truthiness of array-typed containers; per-node histories of a run.",
+  "ast: guard-shape and ordering rules (R10), call-binding (R1), wrapper data-flow (R16w), parameter use (R16)"),
+ "C06": _m(
+  "For all ODE entry points: time grid is np.linspace(tmin,tmax,tcount) and is what is returned; S+I(+R) equals the population "
+  "by construction (linear normal form has no term depending on the integrator output, or the right-hand sides cancel "
+  "symbolically); initial vector, right-hand-side unpacking, derivative vector and solution unpacking agree in order and "
+  "offsets for all 19+ solver/rhs pairs; wrappers forward same-named parameters; degree-class initial arrays are filled for "
+  "the node/edge whose statuses name them; no None use or unbound name on any combination of optional arguments (all "
+  "assignments enumerated, callee bodies entered).",
+  "Not decided: solver tolerance, bounds [0,N], monotonicity, documented order of return tuples (docstrings are inconsistent), array shapes.",
+  "ast: flag-enumerating abstract interpreter (R2/R3), linear normaliser (CONS), layout agreement by offset evaluation (R4), call-binding (R1/R16w), role rules"),
+ "C09": _m(
+  "Every simulator that maintains a (t, source, target) list hands it to Simulation_Investigation; on every infection path "
+  "exactly one record (event time, source, node whose status is written) is appended; queued events bind source := the node "
+  "that was set infectious in the scheduling block and target := a neighbour of it (re-scheduling keeps the pair); Gillespie "
+  "pairs are sampled I-S links (R11); source-less records occur only in loops over initial_infecteds; the discrete-time "
+  "infector is one of the nodes that infected v in that generation; transmissions()/transmission_tree() serve what was stored.",
+  "Not decided: forest shape and time ordering of the list (run-time).",
+  "ast: constructor agreement (R8), record pairing on enumerated paths (R9.C09), handler role binding (H-role), R11"),
+ "C10": _m(
+  "No random draw, user-callable call or drawing package call in the continuous-time simulators is control dependent on "
+  "return_full_data; every series row has the matching history record (same node, same time variable); histories are built "
+  "only from executed events (status filters at the hand-off) and start at tmin; _transform_to_node_history_ resets the "
+  "default entry for events at tmin in every loop; node_status and get_statuses both compute statuses[#(change times <= t) - 1]; "
+  "summary applies +1/-1 at the change time; t/S/I/R read the summary.",
+  "Not decided: equality of reconstructed and running counts as numbers.",
+  "ast: control dependence on return_full_data (R7c), history pairing (R9.C10), hand-off and sibling-shape rules"),
+ "C11": _m(
+  "_process_trans_SIR_: status guard, recovery time = time + duration set before scheduling, transmission enqueued iff "
+  "inf_time <= rec_time[source] and inf_time < pred_inf_time[v] (comparators as the property states), pred_inf_time paired "
+  "with every Q.add, candidates are the susceptible neighbours; myQueue pushes only under time < tmax with (time, counter) "
+  "keys; adapters bind user rules without crossing; percolation builders add every node and exactly the edges delay <= "
+  "duration; get_infected_nodes removes initially recovered nodes before taking the out-component.",
+  "Not decided: the Dijkstra argument itself, tie handling inside the heap beyond the counter.",
+  "ast: control-context facts for scheduling guards (H-guard), queue discipline (R13), role agreement of builders (R14), R1"),
+ "C12": _m(
+  "basic_discrete_SIR / percolation_based_discrete_SIR bind every argument to the same-named parameter of discrete_SIR; one "
+  "Bernoulli test per (infectious, susceptible neighbour) contact with the susceptibility test first; infection <=> flag "
+  "cleared <=> nS -= 1; generation hand-over; one row per step by +1 in time under t[-1] < tmax; initial row sums to N and "
+  "counts initial_recovereds; percolate_network keeps G's nodes and draws once per edge.",
+  "Not decided: transition probabilities as numbers.",
+  "ast: call-binding (R1), contact-loop shape rules (DISC), row rules (R9), R14"),
+ "C13": _m(
+  "_process_trans_SIS_nonMarkov_: first attempt enqueued and exactly the complement slice [1:] carried, at both sites; "
+  "attempts inside the target's infectious period dropped only under status[v]=='I'; remaining attempts re-queued on every "
+  "path (outside the infection block) with the same (source, target); adapter tuple binds the user functions' args without "
+  "crossing; queue discipline; +-1 rows.",
+  "Not decided: equality with the reference history; ordering of user delay lists.",
+  "ast: attempt-chaining rules over reaching definitions (H-chain), role binding, protocol binding (H-proto), R13, R9"),
+ "C14": _m(
+  "In analytic.py and simulation.py no value known to be a node (loop variable over G, nodelist, neighbours, edges, initial "
+  "sets) subscripts anything but a node-keyed map / graph view, no position subscripts a node-keyed map, adjacency matrices "
+  "are built in nodelist order wherever a nodelist is in scope, nodelist is forwarded by wrappers, and degree-class arrays are "
+  "indexed by the degree of the node whose status names them.",
+  "Not decided: floating-point rounding under re-ordering.",
+  "ast: node/position kind inference (R6), role rules for degree-class arrays, call-binding for nodelist"),
+ "C15": _m(
+  "Gillespie_complex_contagion: loop runs exactly while total_weight()>0 and t<tmax; clock is Exp(total_weight()) under a >0 "
+  "guard before the loop and after every event; select, ask the chooser on pre-event statuses, write; the changed node and "
+  "every member of get_influence_set(G,node,status,parameters) are re-rated unconditionally with rate_function on the new "
+  "statuses between the write and the clock; +-1 data rows; _ListDict_ insert/remove semantics (R12).",
+  "Not decided: adequacy of the user's influence set (assumed by the property).",
+  "ast: ordering and must-pass-through rules on the loop body (R11c), R12, R9"),
+ "C16": _m(
+  "_ListDict_: every change of weight[k] paired with the same change of _total_weight; max_weight raised after every raising "
+  "store and lowered only by exact recomputation; items/position bijection; choose_random accepts iff random() < "
+  "weight/max_weight on a uniform proposal; total_weight() accessor; insert = remove + update unless weight 0.",
+  "Not decided: floating-point drift of _total_weight ('to rounding'); negative increments (outside the quantifier).",
+  "ast: class-invariant rules on symbolic store deltas and control-context facts (R12)"),
+ "C17": _m(
+  "estimate_SIR_prob_size_from_dir_perc = (|in-component|, |out-component|) of a node of the largest SCC of the whole H over "
+  "H.order(); estimate_SIR_prob_size = largest component of percolate_network(G,p) over G.order() twice; wrappers build H "
+  "with the builder that keeps all nodes; xi/zeta and delay<=duration edge rules; component helpers use ancestors/descendants.",
+  "Not decided: nothing numeric beyond set sizes; ties between equally large components are resolved by max (any satisfies the statement).",
+  "ast: role-agreement rules with local definition expansion (R14), R1"),
+ "C18": _m(
+  "Who-may-draw: only module-level random.* / legacy np.random.* (no private generators, re-seeding, time/hash/id/os entropy, "
+  "entropy imports; positive fixture must fire); no iteration/pop/list() over a set in the continuous-time simulators and what "
+  "they reach; selection lists sorted(); no draw control dependent on return_full_data; full-data hand-off reads only executed events.",
+  "Not decided: byte equality across processes (a two-execution property).",
+  "ast: forbidden-source scan with positive fixture (R7a), container-kind inference for set iteration (R7b), control dependence (R7c)"),
+ "C19": _m(
+  "No public simulator or ODE entry point stores into, deletes from, reshapes, augments in place or calls a mutator on an "
+  "object that may alias one of its arguments, directly or through any package function, queue handler or ODE right-hand "
+  "side it calls (flow-sensitive alias walk: same / view; bottom-up effect summaries to a fixpoint); no global statements.",
+  "Not decided: 'returns identical results' beyond absence of effects and hidden state.",
+  "ast: interprocedural argument-effect analysis (R5)"),
+ "C20": _m(
+  "PGF lambdas parsed into Pk . (coef * x**(ks-c)) and differentiated by the power rule in the checker: psi' = d psi, psi'' = "
+  "d psi' over the full support 0..maxk; estimate_R0 = T psi''(1)/psi'(1) with T = tau/(tau+gamma); get_Pk / get_Pnk counting "
+  "shape; subsample is a two-pointer scan with <= whose recursion shifts the remaining series; get_time_shift is a first-crossing scan.",
+  "Not decided: numeric identities psi(1)=1 etc. (follow from the shapes checked), behaviour on malformed grids.",
+  "ast: symbolic differentiation of a small polynomial term language (R15), scan-shape rules (SUB)"),
 }
